@@ -31,6 +31,14 @@ CHECKS = {
         text="The 27-row selection table (3 roles x current x requested) is decided exhaustively on every run of the check; histories with every stream type in every order and set_stream at arbitrary moments (early advance, re-selection, every rejected selection) are searched by seed and compared with M-stream.",
         note="Trusted: M-stream's hold-back rule. Non-stream record types as selections are outside the statement (debug assertion).",
         technique=TECH + ": exhaustive table + seeded history search over stream::Parser"),
+    "C03": dict(engine="D1", cat="exploration", ref="DESIGN.md 4/C03",
+        text="Seeded hostile inputs (random bytes and structured mutations of valid traffic) run under 2-3 independent schedules per input with every library call under catch_unwind (debug assertions and overflow checks live), repeated calls after the final state and conversions on clones at non-final states; outcomes are compared across schedules and with the one-shot reference models; errors must be sticky and silent.",
+        note="Trusted: reference models on malformed input (they implement the same documented classification: version before type, BeginRequest length, role, id). StuckOnInput accepted only when a Params/GetValues record announces more content than the effective buffer.",
+        technique=TECH + ": mutation-based hostile traffic under seeded schedules, cross-schedule and model comparison"),
+    "C20": dict(engine="D4", cat="fault_enumeration", ref="DESIGN.md 4/C20",
+        text="For each seeded response every destination capacity 0..=len+1 is enumerated against a sink that also injects short writes and Interrupted per a seeded script, in both full-sink modes, plus bounded &mut [u8] destinations; all 900 status codes are covered per batch. Output bytes, returned count, failure on insufficient capacity and prefix-on-failure are checked.",
+        note="Trusted: http crate's canonical_reason as the reason-phrase reference; the expected grammar is built by the harness from the documented format.",
+        technique=TECH + ": fault-injecting io::Write sink, capacity exhaustion enumerated at every byte"),
 }
 
 NOT_APPLICABLE = [
